@@ -22,6 +22,8 @@ func main() {
 	for i := 0; i < 2; i++ {
 		go worker(in, out)
 	}
+	roots := make(chan *ast.Root)
+	go printAll(roots) // ok (single-consumer): one goroutine writes the results
 	wg.Add(1)
 	in <- 1
 	wg.Wait()
